@@ -129,11 +129,17 @@ Theorem periodic_sense_time nw vals s times :
   recent (sn_cap s) (times ++ [nw]) (sn_time (fst (periodic_sense nw vals s))).
 Proof.
   intros HC R. unfold periodic_sense, sn_trim_time. cbn [fst].
-  assert (T1 : sn_time (sn_collect vals (sn_add_time nw s)) = sn_time s ++ [nw]) by reflexivity.
-  assert (C1 : sn_cap (sn_collect vals (sn_add_time nw s)) = sn_cap s) by reflexivity.
-  rewrite C1, T1. pose proof (recent_step (sn_cap s) times (sn_time s) nw HC R) as RS. cbn zeta in RS.
-  destruct (over_capacity (sn_cap s) (length (sn_time s ++ [nw]))); cbn; rewrite ?T1; exact RS.
+  pose proof (recent_step (sn_cap s) times (sn_time s) nw HC R) as RS. cbn zeta in RS.
+  cbn [sn_add_time sn_cap sn_time].
+  destruct (over_capacity (sn_cap s) (length (sn_time s ++ [nw]))); cbn; exact RS.
 Qed.
+
+Lemma trim_time_fields s : sn_cap (sn_trim_time s) = sn_cap s /\ sn_data (sn_trim_time s) = sn_data s /\ sn_cbs (sn_trim_time s) = sn_cbs s /\
+  sn_count (sn_trim_time s) = sn_count s.
+Proof. unfold sn_trim_time. destruct (over_capacity _ _); repeat split; reflexivity. Qed.
+
+Lemma SnInv_trim hists s : SnInv hists s -> SnInv hists (sn_trim_time s).
+Proof. unfold sn_trim_time. destruct (over_capacity _ _); intro H; exact H. Qed.
 
 Theorem periodic_sense_probes hists nw vals s :
   SnInv hists s -> length vals = length (sn_data s) ->
@@ -142,11 +148,31 @@ Theorem periodic_sense_probes hists nw vals s :
   snd (periodic_sense nw vals s) = map (fun c => (c, nw, vals)) (sn_cbs s).
 Proof.
   intros I LV. unfold periodic_sense. cbn [fst snd].
-  assert (I0 : SnInv hists (sn_add_time nw s)) by exact I.
-  destruct (collect_inv hists vals (sn_add_time nw s) I0 LV) as [I1 [E1 [_ [E2 _]]]].
-  split.
-  - unfold sn_trim_time. destruct (over_capacity _ _); exact I1.
-  - unfold sn_sense_calls. rewrite E1, E2. reflexivity.
+  assert (I0 : SnInv hists (sn_trim_time (sn_add_time nw s))) by (apply SnInv_trim; exact I).
+  destruct (trim_time_fields (sn_add_time nw s)) as [_ [TD [TC _]]].
+  assert (LV' : length vals = length (sn_data (sn_trim_time (sn_add_time nw s)))) by (rewrite TD; exact LV).
+  destruct (collect_inv hists vals _ I0 LV') as [I1 [E1 [_ [E2 _]]]].
+  split; [exact I1|]. unfold sn_sense_calls. rewrite E1, E2, TC. reflexivity.
+Qed.
+
+(** what the on-sense callbacks of a periodic sensor see: the measurement is taken in the state that is also the final one, in which the
+    time series and every per-probe series hold the same number of entries (given that they did before the measurement) *)
+Theorem periodic_sense_aligned_at_notification hists nw vals s times :
+  SnInv hists s -> length vals = length (sn_data s) -> recent (sn_cap s) times (sn_time s) ->
+  (forall i, (i < length hists)%nat -> length (nth i hists []) = length times) ->
+  let s1 := fst (periodic_sense nw vals s) in
+  forall i, (i < length (sn_data s1))%nat -> length (nth i (sn_data s1) []) = length (sn_time s1).
+Proof.
+  intros I LV RT AL s1 i Hi.
+  destruct (periodic_sense_probes hists nw vals s I LV) as [[HC [HL [HR HE]]] _]. fold s1 in HC, HL, HR.
+  assert (C1 : sn_cap s1 = sn_cap s).
+  { unfold s1, periodic_sense. cbn [fst]. unfold sn_collect. cbn [sn_cap]. destruct (trim_time_fields (sn_add_time nw s)) as [X _]. exact X. }
+  pose proof (periodic_sense_time nw vals s times (proj1 I) RT) as [_ LT]. fold s1 in LT.
+  rewrite <- HL in Hi. destruct (HR i Hi) as [_ Li]. rewrite Li, LT, C1.
+  assert (LH : length (nth i (map (fun hv => fst hv ++ [snd hv]) (combine hists vals)) []) = length (times ++ [nw])).
+  { rewrite map_length, combine_length in Hi.
+    destruct I as [_ [HL0 _]]. rewrite nth_map_combine by lia. rewrite !app_length. cbn [length]. rewrite AL by lia. reflexivity. }
+  rewrite LH. reflexivity.
 Qed.
 
 (** * OutputPartSensor: first finished part, then every (n+1)-th *)
